@@ -54,6 +54,18 @@ func Main(args []string) int {
 		return RunCheck(CheckOpts{Property: *prop, Tier: *tier, Seed: seed, Contracts: *contracts, Repo: *repo, Verbose: *verbose, NoEvidence: *noEv, WriteLedger: *ledger})
 	case "all":
 		return runAll(args[1:])
+	case "ledger":
+		// regenerate obligations.lock.json from the current (pinned) tree; refuses on any alarm
+		os.Remove(verifDir + "/obligations.lock.json")
+		rc := 0
+		for i := 1; i <= 18; i++ {
+			p := fmt.Sprintf("C%02d", i)
+			if r := RunCheck(CheckOpts{Property: p, Tier: "quick", WriteLedger: true}); r != 0 {
+				fmt.Printf("LEDGER-REFUSED property=%s exit=%d\n", p, r)
+				rc = 1
+			}
+		}
+		return rc
 	case "replay":
 		if len(args) < 2 {
 			fmt.Println("usage: gtverify replay <path>")
